@@ -108,8 +108,9 @@ type wmod struct {
 	// the static type of what a function with result interface{} returns
 	ifaceResult map[string]string
 	checked     map[string]bool
-	// calls read by the generator that uses the translator (nil: none)
+	// calls / statements read by the generator that uses the translator (nil: none)
 	callExt func(c *wctx, n *ast.CallExpr, pre *[]wbind) (wval, bool)
+	stmtExt func(c *wctx, list []ast.Stmt, k func(c *wctx) string) (string, bool)
 	// structures of imported modules
 	skipStructs map[string]bool
 }
@@ -143,6 +144,7 @@ type wfn struct {
 	m       *wmod
 	p       *wpkg
 	callExt func(c *wctx, n *ast.CallExpr, pre *[]wbind) (wval, bool)
+	stmtExt func(c *wctx, list []ast.Stmt, k func(c *wctx) string) (string, bool)
 	base    string
 	what    string
 	helpers []string
@@ -1142,7 +1144,12 @@ func (m *wmod) callee(p *wpkg, key string) *wcallee {
 	if fd == nil || fd.Body == nil {
 		refuse("%s not found", full)
 	}
-	return m.calleeFrom(p, key, fd, wLeanFuncName(key), "")
+	lean := wLeanFuncName(key)
+	if p.name != "seqio" && fd.Recv == nil {
+		// a plain function of another package: gts.Max is gtsMax (`max` would hide Lean's own)
+		lean = p.name + strings.ToUpper(key[:1]) + key[1:]
+	}
+	return m.calleeFrom(p, key, fd, lean, "")
 }
 
 // calleeFrom translates the declaration fd (the function `key` itself, or a variant of it built by a
@@ -1160,7 +1167,7 @@ func (m *wmod) calleeFrom(p *wpkg, key string, fd *ast.FuncDecl, lean, note stri
 	if orig := p.funcs[key]; orig != nil {
 		p.checkImports(p.fileOf[orig])
 	}
-	f := &wfn{m: m, p: p, base: lean, used: map[string]bool{}, callExt: m.callExt}
+	f := &wfn{m: m, p: p, base: lean, used: map[string]bool{}, callExt: m.callExt, stmtExt: m.stmtExt}
 	pos := p.fset.Position(fd.Pos())
 	f.what = fmt.Sprintf("%s `%s`", pos.Filename[strings.LastIndex(pos.Filename, "/")+1:], key)
 	if note != "" {
